@@ -345,7 +345,8 @@ def bool_result(f):
     Returns (value, None) or (None, reason) when an early return is not of that foldable form."""
     res = f.get('tail')
     for r in reversed(f.get('returns', [])):
-        frames = [fr for fr in r.get('guard', []) if fr.get('k') in ('if', 'arm', 'for', 'while', 'loop', 'closure')]
+        # frames that only say "an earlier `if .. { return }` was not taken" are implied by folding the returns in order
+        frames = [fr for fr in r.get('guard', []) if fr.get('k') in ('if', 'arm', 'for', 'while', 'loop', 'closure') and not (fr.get('k') == 'if' and fr.get('early_exit') and not any(x.get('k') in ('for', 'while', 'loop', 'closure') for x in r.get('guard', [])))]
         v = vt.strip(r.get('v'))
         if len(frames) != 1 or frames[0].get('k') != 'if' or not (isinstance(v, dict) and v.get('k') == 'lit' and isinstance(v.get('v'), bool)):
             return None, f"line {r.get('line')}: `return {vt.show(r.get('v'))[:50]}` under {[fr.get('k') for fr in frames]}"
